@@ -73,6 +73,13 @@ func approx(got, want, scale float64) bool { return approxTol(got, want, toleran
 // run: a panic in Quantile leaves the object usable and the remaining prefixes
 // still have to be checked).
 func runNumerical(config string, samples []string) (res result, fails []*fail) {
+	return runNumericalAt(config, samples, numLookup, everyPrefix)
+}
+
+// runNumericalAt: lookup is the reference's knowledge of what each sample
+// string is (the symbol table, or the generator of a size family); cp selects
+// the prefixes after which the accessors are called.
+func runNumericalAt(config string, samples []string, lookup func(string) (float64, bool), cp checkAt) (res result, fails []*fail) {
 	cfg := &aggregation.NumericalConfig{}
 	switch config {
 	case "keep", "keep-large":
@@ -107,8 +114,8 @@ func runNumerical(config string, samples []string) (res result, fails []*fail) {
 				where = "Sample"
 				impl.Sample(samples[i])
 				res.transitions++
-				if v, ok := numLookup(samples[i]); ok {
-					ref.vals = append(ref.vals, v)
+				if v, ok := lookup(samples[i]); ok {
+					ref.add(v)
 					res.accepted++
 				} else {
 					ref.errs++
@@ -120,6 +127,9 @@ func runNumerical(config string, samples []string) (res result, fails []*fail) {
 			add(fatal, i+1)
 			res.f, res.fatal = fatal, true
 			return
+		}
+		if !cp.at(i+1, len(samples)) {
+			continue
 		}
 		var ob strings.Builder
 		for _, chk := range numericalChecks(impl, cfg, ref, &ob) {
